@@ -8,10 +8,11 @@ every registered (model, culture) pair over Specs inputs, generated expressions 
 and by the Lean definition `RTV.Preprocess.spanOK`.  Shares lib/spancorr.py with C12."""
 from lib import spancorr
 from lib import dtextractcorr
+from lib import dtextract2corr
 
 PROP = 'C01'
 LEVEL = 'proof'
-PROPS_MODULES = ['RTV.Props.C01', 'RTV.Props.C01DtExtract']
+PROPS_MODULES = ['RTV.Props.C01', 'RTV.Props.C01DtExtract', 'RTV.Props.C01DtExtract2']
 GEN = ['chartables', 'preprocess']
 REQUIRED_THEOREMS = ['preprocess_length_of', 'recodePairs_single', 'preprocess_length', 'preprocess_length_current_fails',
                      'preprocess_length_current_partial', 'sweep_spans', 'sweep_spans_ip', 'sweep_spans_number',
@@ -23,7 +24,9 @@ REQUIRED_THEOREMS = ['preprocess_length_of', 'recodePairs_single', 'preprocess_l
                      'subextractor_results_ok', 'dateBasic_inside', 'numberWithMonth_inside', 'extendWdYear_inside', 'extendWdYear_overrun_witness', 'agoLater_inside', 'relDurLoop_inside', 'inPrefix_reversed_witness', 'numberWithUnit_inside', 'numberWithUnitAndSuffix_inside', 'mergeMultipleDuration_inside', 'tagInequality_inside', 'mdtPairTok_inside', 'mdtLoop_mem', 'mdtWiden_inside', 'todBeforeOne_inside', 'todAfterOne_inside', 'specialOne_inside', 'rangePairTok_inside', 'rangeLoop_mem', 'range_from_leading_blank', 'rangePairTok_time_after_between_witness', 'matchDurationOne_inside_partial', 'matchDuration_suffix_overrun',
                      # repaired variants at full strength + the pre-fix regressions (findings/dtextract/*.diff)
                      'dateBasic_fixed_covers_match', 'dateBasic_first_occurrence', 'mdtLoop_total_fixed', 'mergeDateAndTime_raises',
-                     'rangePairTok_fixed_starts_at_word', 'rangePairTok_fixed_clear_of_previous']
+                     'rangePairTok_fixed_starts_at_word', 'rangePairTok_fixed_clear_of_previous',
+                     # RTV.Props.C01DtExtract2: the remaining sub-extractors (date / time / date-time period, set, holiday)
+                     'centuryOne_inside_iff', 'century_overrun_witness', 'centuryOne_fixed_inside', 'yearPeriod_reversed', 'yearPeriod_empty_entity_witness', 'yearPeriod_fixed_inside', 'singleTimePoint_inside', 'complexInputs_ok', 'firstOccToks_inside', 'tpPoints_ok', 'tpMergeTwoTimePoints_mem', 'dtpDateWithTimePeriod_inside', 'dtpMatchDuration_inside_partial', 'dtpDuration_previous_overrun', 'todDates_inside', 'todAdjOne_inside', 'prefixDayOne_inside', 'prefixDay_leading_blank_witness', 'dtpDateWithSuffix_inside', 'matchEachCut_inside', 'matchEachWeekday_inside_partial', 'holidayMatch_inside', 'extractor_results_ok']
 RULE = ('preprocess: every code point (blocks of 200 separated by blanks, both case modes) + seeded strings over a pool '
         'with full-width forms, U+0130, sigma, unit tokens; pipeline and unit level as C12 with oracle spanOK; '
         'non-trivial = distinct query with at least one entity / distinct recorded call with at least one result')
@@ -44,3 +47,4 @@ def correspond(ctx):
     tasks = spancorr.pipeline(ctx, PROP)
     spancorr.unit_level(ctx, PROP, tasks)
     dtextractcorr.run(ctx, PROP, tasks)
+    dtextract2corr.run(ctx, PROP, tasks)
